@@ -196,6 +196,11 @@ def field_order(ctx):
 
 
 def computed_and_replace(ctx):
+    computed_field_clause(ctx)
+    find_replace_clause(ctx)
+
+
+def computed_field_clause(ctx):
     run, repo = ctx.run, ctx.repo
     run.rule('CMP', 'COMPUTED/REPLACE: add_computed_field applies the operation named by the field spec to exactly the non-null source '
                     'values of that row and stores the result only under the target name, yielding the same row; find_replace reads '
@@ -245,7 +250,10 @@ def computed_and_replace(ctx):
         run.check(lam is not None and any(match_expr(p_, lam) is not None for p_ in pats), 'CMP',
                   where(repo, table[k]) if k in table else m.relpath, m.name + ':<module>', 'AGGREGATORS[%r] = %s' % (k, pats[0]),
                   'operation %r does not compute its documented definition (found %s)' % (k, u(lam) if lam is not None else None))
-    # find_replace
+
+
+def find_replace_clause(ctx):
+    run, repo = ctx.run, ctx.repo
     w, i_ = wrapper_of(ctx, 'find_replace')
     fr = ctx.N(w)
     loop, var, src = observers.single_row_loop(ctx, fr, fr.params[i_])
